@@ -18,7 +18,13 @@ pub struct Case {
     pub broken: String,
     pub edit: String,
     pub base_steps: usize,
+    /// E2 only: the name is a computed / aliased column on the left, on the right, and the
+    /// right-hand sub-pipeline has no relation alias
+    #[serde(default)]
+    pub e2_unqualified_both: bool,
 }
+
+pub const F_E2: &str = "C10-ambiguous-computed-name-unaliased-join";
 
 const ALL_NAMES: &[&str] = &["id", "a", "b", "k", "s", "x", "f", "u"];
 
@@ -49,6 +55,7 @@ pub fn gen_case(t: &mut Tape) -> Case {
     // valid continuation so that the edit is not the last step
     let tail = *t.pick(&[" | take 10", " | filter true", " | take 1..5 | filter true", ""]);
     let kind = t.choose(5);
+    let mut e2_flag = false;
     let (edit, step): (String, String) = match kind {
         0 if !dropped.is_empty() => {
             let n = *t.pick(&dropped);
@@ -68,30 +75,43 @@ pub fn gen_case(t: &mut Tape) -> Case {
             }
         }
         1 => {
-            // a bare name present on both sides of a join of two known frames
-            let cands: Vec<(String, String)> = names
-                .iter()
-                .flat_map(|n| {
-                    db.tables
-                        .iter()
-                        .filter(|tb| tb.cols.iter().any(|c| &c.name == n))
-                        .map(|tb| (n.clone(), tb.name.clone()))
-                        .collect::<Vec<_>>()
-                })
-                .collect();
-            if cands.is_empty() {
+            // a bare name present on both sides of a join of two known frames. The name may be a
+            // plain column or a computed / aliased one on either side, and the right side may or
+            // may not get a relation alias.
+            if names.is_empty() {
                 ("E5 scalar in from".into(), String::new())
             } else {
-                let (n, tb) = t.pick(&cands).clone();
+                let n = t.pick(&names).clone();
+                let left_computed = frame.cols.iter().any(|c| c.name.as_ref() == Some(&n) && c.rel.is_none());
+                let tb = db.tables[t.choose(db.tables.len())].clone();
+                let has = tb.cols.iter().any(|c| c.name == n);
+                let first_col = tb.cols[0].name.clone();
+                let right_plain = has && t.chance(1, 2);
+                let right_item = if right_plain {
+                    crate::model::print::ident(&n)
+                } else {
+                    match t.choose(3) {
+                        0 => format!("{} = {}", crate::model::print::ident(&n), first_col),
+                        1 => format!("{} = 1 + 2", crate::model::print::ident(&n)),
+                        _ => format!("{} = {} ?? {}", crate::model::print::ident(&n), first_col, first_col),
+                    }
+                };
+                let alias = if t.chance(1, 2) { "zr = " } else { "" };
+                // recorded finding: with an un-aliased right-hand sub-pipeline the name is not
+                // reported as ambiguous when (a) it is computed on both sides, or (b) both sides
+                // come from the same table (same relation name)
+                let same_table = frame.cols.iter().any(|c| c.rel.as_deref() == Some(tb.name.as_str()));
+                e2_flag = alias.is_empty() && ((left_computed && !right_plain) || same_table);
+                let nn = crate::model::print::ident(&n);
                 let use_ = match t.choose(4) {
-                    0 => format!("derive {{zz = {n}}}"),
-                    1 => format!("filter {n} == {n}"),
-                    2 => format!("sort {{{n}}}"),
-                    _ => format!("select {{{n}}}"),
+                    0 => format!("derive {{zz = {nn}}}"),
+                    1 => format!("filter {nn} == {nn}"),
+                    2 => format!("sort {{{nn}}}"),
+                    _ => format!("select {{{nn}}}"),
                 };
                 (
                     format!("E2 ambiguous bare name `{n}` after join"),
-                    format!(" | join zr = (from {tb} | select {{{n}}}) (true) | {use_}"),
+                    format!(" | join {alias}(from {} | select {{{right_item}}}) (true) | {use_}", tb.name),
                 )
             }
         }
@@ -156,10 +176,11 @@ pub fn gen_case(t: &mut Tape) -> Case {
         broken: format!("{broken}\n"),
         edit,
         base_steps: ns,
+        e2_unqualified_both: e2_flag,
     }
 }
 
-pub fn check(case: &Case, _known: &Known) -> Outcome {
+pub fn check(case: &Case, known: &Known) -> Outcome {
     match util::compile(&case.base, None) {
         Compiled::Sql(_) => {}
         Compiled::Err(r) => {
@@ -181,10 +202,16 @@ pub fn check(case: &Case, _known: &Known) -> Outcome {
             out
         }
         Compiled::Panic(p) => Outcome::skip(&format!("compiler_panic: {}:{}", p.file, p.line)).class("compiler_panic"),
-        Compiled::Sql(sql) => Outcome::fail(
-            "ill-scoped program is accepted",
-            json!({"edit": case.edit, "source": case.broken, "sql": sql}),
-        ),
+        Compiled::Sql(sql) => {
+            let mut o = Outcome::fail(
+                "ill-scoped program is accepted",
+                json!({"edit": case.edit, "source": case.broken, "sql": sql}),
+            );
+            if case.e2_unqualified_both && known.is_open(F_E2) {
+                o.verdict = crate::runner::Verdict::Known(F_E2.into(), case.edit.clone());
+            }
+            o
+        }
     }
 }
 
